@@ -1,7 +1,7 @@
 (** C10 — property theorems only.  Each is closed by [exact] of a lemma in the proof files and
     followed by [Print Assumptions]. *)
 From V Require Import Base.Util Gql.Ast Writer.Wop Ts.TsType Ts.TsDen
-  C10.Model C10.Spec C10.DenLemmas C10.Proofs C10.Proofs2 C10.JsdocProofs C10.NameProofs C10.ResolverProofs.
+  C10.Model C10.Spec C10.DenLemmas C10.Decide C10.Proofs C10.Proofs3 C10.Proofs2 C10.JsdocProofs C10.NameProofs C10.ResolverProofs.
 
 (** [[alias T in namespace t]] = Ref_t(T): whenever the TypeScript reading of the alias the schema
     declaration exports for [T] in the namespace of target [t] decides membership of a value, it
@@ -13,6 +13,16 @@ Theorem C10_alias_exact : forall o doc nss t T body f v b,
   has_type_b (ns_env (namespace_of nss t)) f body v = Some b -> Ref o doc t T v = b.
 Proof. exact alias_exact. Qed.
 Print Assumptions C10_alias_exact.
+
+(** … and it does decide: for every value the alias admits it (for some fuel) iff it is in the
+    reference denotation, and rejects it iff it is not — [[alias T in namespace t]] = Ref_t(T) *)
+Theorem C10_alias_exact_iff : forall o doc nss t T body v,
+  wf_schema o doc = true -> schema_decls o doc = Ok nss ->
+  applicable doc t T = true -> alias_of (namespace_of nss t) T = Some body ->
+  (In_type (ns_env (namespace_of nss t)) body v <-> Ref o doc t T v = true)
+  /\ (NotIn_type (ns_env (namespace_of nss t)) body v <-> Ref o doc t T v = false).
+Proof. exact alias_exact_equiv. Qed.
+Print Assumptions C10_alias_exact_iff.
 
 (** a namespace exports an alias for exactly the types that exist for that target *)
 Theorem C10_alias_present : forall o doc nss t T td,
